@@ -810,3 +810,106 @@ Example C04_op_days_example :
   dz_op_add_days a 1 = Panic /\ dz_op_add_days a 0 = Val a.
 Proof. exact C04OpDays.opdays_examples. Qed.
 Print Assumptions C04_op_days_example.
+
+(* ---- round E04.  C04_holds below supersedes the per-op C04_holds_* theorems above (canonical encodings only); they are kept under their names *)
+(* ================================================================================================
+   ADDITIONS for coq/Props/C04.v (append at the end of the file).
+   Judge acceptance for the seven ops whose judge has an open class ([Judge.C04.moved] /
+   [judge_either]): z.days z.opdays z.withtime z.months z.opmonths z.with z.ymdhms
+   (Proofs/C04HoldsMoved.v, C04HoldsMonths.v, C04HoldsWith.v), the inversion of the judge's decoders
+   (an argument the judge accepts IS the canonical encoding of a well-formed value), and the top-level
+   theorem over every op and every argument list (Proofs/C04HoldsAll.v). *)
+From V Require Proofs.HoldsLib Proofs.C04HoldsMoved Proofs.C04HoldsMonths Proofs.C04HoldsWith Proofs.C04HoldsAll.
+
+(* the generic fact about [moved]: the strict value is always accepted; "nothing" is accepted inside the two
+   open classes (new wall-clock date different from the old one and outside the nominal range; last second of
+   the range with a leap fraction) *)
+Theorem C04_moved_accepts : forall mk none u off w' f' got,
+  got = (if Judge.C04.in_rng (w' - off) then mk (Judge.C04.enc_z (w' - off) f' off) else none) \/
+  ((C04HoldsMoved.open1 u off w' = true \/ C04HoldsMoved.open2 off w' f' = true) /\ got = none) ->
+  Judge.C04.moved mk none u off w' f' got = JOk.
+Proof. exact C04HoldsMoved.moved_ok. Qed.
+Print Assumptions C04_moved_accepts.
+
+Theorem C04_holds_days : forall a sign n, dtz_ok a -> (sign =? 1) || (sign =? -1) = true -> in_u64 n = true ->
+  Judge.C04.judge B"z.days" [enc_dtz a; VInt sign; VInt n] (run B"z.days" [enc_dtz a; VInt sign; VInt n]) = JOk.
+Proof. exact C04HoldsMoved.holds_days. Qed.
+Print Assumptions C04_holds_days.
+Theorem C04_holds_opdays : forall a sign n, dtz_ok a -> (sign =? 1) || (sign =? -1) = true -> in_u64 n = true ->
+  Judge.C04.judge B"z.opdays" [enc_dtz a; VInt sign; VInt n] (run B"z.opdays" [enc_dtz a; VInt sign; VInt n]) = JOk.
+Proof. exact C04HoldsMoved.holds_opdays. Qed.
+Print Assumptions C04_holds_opdays.
+(* z.withtime: the model is with_time as repaired by fixes/C04-with-time-range.diff (known finding) *)
+Theorem C04_holds_withtime : forall a t, dtz_ok a -> time_ok t ->
+  Judge.C04.judge B"z.withtime" [enc_dtz a; Time.enc_time t] (run B"z.withtime" [enc_dtz a; Time.enc_time t]) = JOk.
+Proof. exact C04HoldsMoved.holds_withtime. Qed.
+Print Assumptions C04_holds_withtime.
+Theorem C04_holds_months : forall a sign n, dtz_ok a -> (sign =? 1) || (sign =? -1) = true -> in_u32 n = true ->
+  Judge.C04.judge B"z.months" [enc_dtz a; VInt sign; VInt n] (run B"z.months" [enc_dtz a; VInt sign; VInt n]) = JOk.
+Proof. exact C04HoldsMonths.holds_months. Qed.
+Print Assumptions C04_holds_months.
+Theorem C04_holds_opmonths : forall a sign n, dtz_ok a -> (sign =? 1) || (sign =? -1) = true -> in_u32 n = true ->
+  Judge.C04.judge B"z.opmonths" [enc_dtz a; VInt sign; VInt n] (run B"z.opmonths" [enc_dtz a; VInt sign; VInt n]) = JOk.
+Proof. exact C04HoldsMonths.holds_opmonths. Qed.
+Print Assumptions C04_holds_opmonths.
+(* all 11 fields (0 year ... 6 ordinal0, 7 hour ... 10 nanosecond); the premise is the judge's own domain test *)
+Theorem C04_holds_with : forall a field x, dtz_ok a ->
+  (0 <=? field) && (field <=? 10) && (if field =? 0 then in_i32 x else in_u32 x) = true ->
+  Judge.C04.judge B"z.with" [VInt field; enc_dtz a; VInt x] (run B"z.with" [VInt field; enc_dtz a; VInt x]) = JOk.
+Proof. exact C04HoldsWith.holds_with. Qed.
+Print Assumptions C04_holds_with.
+Theorem C04_holds_ymdhms : forall off y m d h mi s, off_ok off ->
+  in_i32 y && in_u32 m && in_u32 d && in_u32 h && in_u32 mi && in_u32 s = true ->
+  Judge.C04.judge B"z.ymdhms" [VInt off; VInt y; VInt m; VInt d; VInt h; VInt mi; VInt s]
+    (run B"z.ymdhms" [VInt off; VInt y; VInt m; VInt d; VInt h; VInt mi; VInt s]) = JOk.
+Proof. exact C04HoldsWith.holds_ymdhms. Qed.
+Print Assumptions C04_holds_ymdhms.
+
+(* ---- the judge's decoders accept exactly the canonical encodings of well-formed values *)
+Theorem C04_judge_domain_z : forall v u f off, Judge.C04.z_of_arg v = Some (u, f, off) ->
+  exists a, v = enc_dtz a /\ dtz_ok a /\ u = usecs (dz_utc a) /\ f = frac (dz_utc a) /\ off = dz_off a.
+Proof. exact C04HoldsAll.z_inv. Qed.
+Print Assumptions C04_judge_domain_z.
+Theorem C04_judge_domain_naive : forall v u f, Judge.C04.naive_of_arg v = Some (u, f) ->
+  exists n, v = enc_ndt n /\ ndt_ok n /\ u = usecs n /\ f = frac n.
+Proof. exact C04HoldsAll.naive_inv. Qed.
+Print Assumptions C04_judge_domain_naive.
+Theorem C04_judge_domain_off : forall v off, Judge.C04.off_of_arg v = Some off -> v = VInt off /\ off_ok off.
+Proof. exact C04HoldsAll.off_inv. Qed.
+Print Assumptions C04_judge_domain_off.
+Theorem C04_judge_domain_time : forall v s f, Judge.C04.time_of_arg v = Some (s, f) ->
+  exists t, v = Time.enc_time t /\ time_ok t /\ s = Time.tsecs t /\ f = Time.tfrac t.
+Proof. exact C04HoldsAll.time_inv. Qed.
+Print Assumptions C04_judge_domain_time.
+(* z.show: the domain of the judge's documented text is the side conditions of C04_holds_show *)
+Theorem C04_judge_domain_show : forall form v out, Judge.C09.judge_show 3 form v out <> JSkip ->
+  exists a, v = enc_dtz a /\ dtz_ok a /\ dz_off a mod 60 = 0 /\
+    (frac (dz_utc a) < 1000000000 \/ Time.tsecs (nd_time (dz_utc a)) mod 60 = 59) /\ (form = 0 \/ form = 1).
+Proof. exact C04HoldsAll.show_dom. Qed.
+Print Assumptions C04_judge_domain_show.
+
+(* ---- top level: every op of the dispatcher (31), every argument list, no premise: whenever the judge has an
+        opinion on the model's output it accepts it; in particular the judge never says "bad" on the model *)
+Theorem C04_holds : forall op args,
+  Judge.C04.judge op args (run op args) <> JSkip -> Judge.C04.judge op args (run op args) = JOk.
+Proof. exact C04HoldsAll.C04_holds. Qed.
+Print Assumptions C04_holds.
+Theorem C04_never_bad : forall op args, HoldsLib.not_bad (Judge.C04.judge op args (run op args)).
+Proof. exact C04HoldsAll.C04_never_bad. Qed.
+Print Assumptions C04_never_bad.
+(* not vacuous: an in-domain case of the first open class (the model answers "nothing", the judge has an
+   opinion on that case line), and a with_year on a headroom wall clock *)
+Example C04_holds_inhabited :
+  Judge.C04.judge B"z.days" [enc_dtz z_max_p2h; VInt 1; VInt 1] (run B"z.days" [enc_dtz z_max_p2h; VInt 1; VInt 1]) = JOk /\
+  run B"z.days" [enc_dtz z_max_p2h; VInt 1; VInt 1] = VNone /\
+  Judge.C04.judge B"z.days" [enc_dtz z_max_p2h; VInt 1; VInt 1] (VSome (VInt 0)) <> JSkip /\
+  Judge.C04.judge B"z.with" [VInt 0; enc_dtz z_min_m2h; VInt 1970] (run B"z.with" [VInt 0; enc_dtz z_min_m2h; VInt 1970]) = JOk.
+Proof. exact C04HoldsAll.holds_examples. Qed.
+Print Assumptions C04_holds_inhabited.
+Example C04_moved_hypotheses_inhabited :
+  dtz_ok z_max_p2h /\ (1 =? 1) || (1 =? -1) = true /\ (-1 =? 1) || (-1 =? -1) = true /\ in_u64 18446744073709551615 = true /\
+  in_u32 4294967295 = true /\ time_ok noon /\ off_ok (-86399) /\
+  (0 <=? 10) && (10 <=? 10) && (if 10 =? 0 then in_i32 1999999999 else in_u32 1999999999) = true /\
+  in_i32 (-262144) && in_u32 12 && in_u32 31 && in_u32 23 && in_u32 59 && in_u32 59 = true.
+Proof. exact C04HoldsAll.moved_hyps_inhabited. Qed.
+Print Assumptions C04_moved_hypotheses_inhabited.
